@@ -37,7 +37,7 @@ def run(ctx):
 
     # ---- leg B: schedules from TLC
     b1 = vlib.tlc_behaviours(ctx, "PipeConn", "PipeConn_gen1.cfg", label="generator: 1 caller, exhaustive BFS")
-    nsim = 1500 if T else 120
+    nsim = 1000 if T else 120
     b2 = vlib.tlc_behaviours(ctx, "PipeConn", "PipeConn_gen.cfg", simulate=nsim, depth=150,
                              cfg_text=pc.gen_cfg(GenFocus='"late_fault"', MaxCancel="0", MaxStray="0"),
                              label="generator: 2 callers, faults only directly after a reply")
@@ -51,8 +51,8 @@ def run(ctx):
     # the reply-then-close race is decided by Go's select: repeat a sample of those behaviours N times
     race_ids = [i for i, b in enumerate(behs) if pc.reply_then_fault(b["steps"])]
     rng.shuffle(race_ids)
-    race_ids = set(race_ids[:40 if T else 10])
-    race_rep = 200 if T else 24
+    race_ids = set(race_ids[:30 if T else 10])
+    race_rep = 100 if T else 24
     for i, b in enumerate(behs):
         early = pc.early_delivery(b["steps"])
         race = pc.reply_then_fault(b["steps"])
@@ -65,6 +65,19 @@ def run(ctx):
                                             kinds=[kinds[(i + k) % 3]], pause=(k % 3 == 1),
                                             grace_ms=600 if dgram else 1500))
                 meta.append({"beh": i, "early": early, "race": race})
+    # UDP retransmission (real 1 s ticker): no reply until the query has been written a second time; the reply
+    # to the resend (copy 0 of the same send) must then be returned; a duplicate follows
+    for k in range(3 if T else 1):
+        st = [{"a": "ArmIdle"}, {"a": "Reserve", "c": 0, "o": "ok"}, {"a": "Start", "c": 0}, {"a": "Write", "c": 0},
+              {"a": "ArmWaiting", "c": 0}, {"a": "Sleep", "n": 1050}, {"a": "Write", "c": 0}]
+        if k % 2 == 0:
+            st += [{"a": "ArmWaiting", "c": 0}, {"a": "ReadMsg", "c": 0, "g": 0, "n": 0}]
+        else:   # reply handed over while the caller is inside the resend's Write
+            st += [{"a": "ReadMsg", "c": 0, "g": 0, "n": 0}, {"a": "Dispatch"}, {"a": "ArmIdle"}, {"a": "ArmWaiting", "c": 0}]
+        st += [{"a": "Return", "c": 0}]
+        scripts.append({"name": "udp-resend.%d" % k, "maxCq": BIG, "dgram": True, "qid0": 0, "idpolicy": "random", "steps": st,
+                        "probe": False, "grace_ms": 600})
+        meta.append({"beh": None, "early": False, "race": False})
     # randomized concurrent runs (real goroutine interleavings)
     nrand = 600 if T else 60
     for i in range(nrand):
